@@ -207,3 +207,44 @@ def make_ensemble(h, d, nw, events, bounds=None, max_attempts=2, symbolic_ctor=F
     s.max_attempts = max_attempts
     s.failed_updates.append(0)  # as __advance_all does before advancing the walkers
     return en, s, post, alpha, X
+
+
+class HarnessOutOfDate(AttributeError):
+    """raised when the harness cannot find the internal routine it drives (the code was re-organised): reported as
+    inconclusive, never as a violation"""
+
+    def __init__(self, msg):
+        super().__init__(msg)
+        self.obj = HarnessOutOfDate   # classified by symnp.harness as a harness-side problem
+
+
+def find_method(obj, keywords, what, nargs=1):
+    import symnp.harness as _sh
+    _sh.WHITEBOX["used"] = True   # this unit drives an internal routine: harness-side exceptions are not verdicts
+    """the private routine a unit drives directly, located by what it is about rather than by its exact name
+    (tolerates renaming such as __advance_walker -> _update_walker); public names are never matched"""
+    cls = type(obj)
+    hits = []
+    for name in dir(cls):
+        bare = name.split("__")[-1] if name.startswith("_" + cls.__name__ + "__") else name
+        if not name.startswith("_") or name.startswith("__") and name.endswith("__"):
+            continue
+        f = getattr(cls, name, None)
+        if any(k in bare.lower() for k in keywords) and callable(f):
+            try:
+                import inspect
+                ps = [q for q in inspect.signature(f).parameters.values() if q.name != "self" and q.default is q.empty
+                      and q.kind in (q.POSITIONAL_ONLY, q.POSITIONAL_OR_KEYWORD)]
+                if len(ps) != nargs:
+                    continue
+            except (TypeError, ValueError):
+                pass
+            hits.append(name)
+    if len(hits) != 1:
+        raise HarnessOutOfDate(f"cannot identify {what} of {cls.__name__} (candidates: {hits})")
+    return getattr(obj, hits[0])
+
+
+def priv(cls, *names):
+    """optional references for h.covers: attributes that may have been renamed are skipped"""
+    return [getattr(cls, n) for n in names if hasattr(cls, n)]
